@@ -11,4 +11,6 @@ func VerifAmpState(sph SentPacketHandler) (bytesSent, bytesReceived protocol.Byt
 }
 
 // VerifAmpLimited exposes isAmplificationLimited (read only, C14).
-func VerifAmpLimited(sph SentPacketHandler) bool { return sph.(*sentPacketHandler).isAmplificationLimited() }
+func VerifAmpLimited(sph SentPacketHandler) bool {
+	return sph.(*sentPacketHandler).isAmplificationLimited()
+}
